@@ -33,6 +33,10 @@ fn values() -> Vec<FactValue> {
         FactValue::Null,
         FactValue::Array(vec![FactValue::Integer(1)]),
         FactValue::String("a".into()),
+        // floats only inside a nested array
+        FactValue::Array(vec![FactValue::Array(vec![FactValue::Float(-0.0)])]),
+        FactValue::Array(vec![FactValue::Array(vec![FactValue::Float(0.0)])]),
+        FactValue::Array(vec![FactValue::Array(vec![FactValue::Float(f64::NAN)]), FactValue::Null]),
     ]
 }
 
@@ -63,6 +67,10 @@ pub struct AlphaSys {
 }
 
 impl AlphaSys {
+    pub fn nested() -> Self {
+        let v = values();
+        AlphaSys { idx: AlphaMemoryIndex::new(), vals: vec![v[13].clone(), v[14].clone(), v[15].clone(), v[11].clone(), v[3].clone()], n: 0, comparisons: 0 }
+    }
     pub fn new(nvals: usize) -> Self {
         AlphaSys { idx: AlphaMemoryIndex::new(), vals: values().into_iter().take(nvals).collect(), n: 0, comparisons: 0 }
     }
@@ -400,6 +408,9 @@ fn memo_nodes_structure() -> Vec<ReteUlNode> {
         ReteUlNode::UlAnd(Box::new(alpha("x", "==", "5")), Box::new(alpha("y", "==", "1"))),
         ReteUlNode::UlAnd(Box::new(alpha("y", "==", "5")), Box::new(alpha("z", "==", "1"))),
         ReteUlNode::UlNot(Box::new(alpha("x", "==", "5"))),
+        // the operand names another fact (field-to-field comparison)
+        alpha("x", ">", "y"),
+        alpha("x", "==", "z"),
     ]
 }
 
@@ -575,10 +586,10 @@ pub fn run(opts: &Opts) -> Vec<Report> {
     if crate::props::wants(opts, "alpha_index") {
         let depth = if quick { 5 } else { 6 };
         let mut cfg = Config::new("alpha_index", depth);
-        cfg.ctx = json!({"values": 13});
+        cfg.ctx = json!({"values": 16});
         cfg.expected_letters = vec!["insert".into(), "create_index".into(), "drop_index".into()];
-        let mut r = explore::explore(&|| AlphaSys::new(13), &cfg);
-        r.bound = format!("all histories of length <= {} over insert(f in 13 values | missing) / create_index / drop_index; after every step filter(f, v) and filter_tracked for all 13 values vs a linear == scan", depth);
+        let mut r = explore::explore(&|| AlphaSys::new(16), &cfg);
+        r.bound = format!("all histories of length <= {} over insert(f in 16 values | missing) / create_index / drop_index; after every step filter(f, v) and filter_tracked for all 16 values vs a linear == scan", depth);
         out.push(r);
         // deeper on the collision-prone sub-alphabet
         let depth2 = if quick { 7 } else { 9 };
@@ -586,6 +597,11 @@ pub fn run(opts: &Opts) -> Vec<Report> {
         cfg.ctx = json!({"values": 6});
         let mut r = explore::explore(&|| AlphaSys::new(6), &cfg);
         r.bound = format!("same, values {{0, 5, -0.0, 0.0, 5.0, NaN}}, length <= {}", depth2);
+        out.push(r);
+        let mut cfg = Config::new("alpha_index_nested_arrays", depth2);
+        cfg.ctx = json!({"values": "nested"});
+        let mut r = explore::explore(&AlphaSys::nested, &cfg);
+        r.bound = format!("same, values {{[[-0.0]], [[0.0]], [[NaN], null], [1], 0.0}}, length <= {}", depth2);
         out.push(r);
     }
     if crate::props::wants(opts, "alpha_index_several_fields") {
@@ -615,7 +631,7 @@ pub fn run(opts: &Opts) -> Vec<Report> {
         let depth = if quick { 2 } else { 3 };
         let cfg = Config::new("memo_field_structure", depth);
         let mut r = explore::explore(&MemoSys::new_structure, &cfg);
-        r.bound = format!("all sequences of <= {} evaluate(node, facts) calls over 7 nodes x 27 fact sets (each of x, y, z absent / 1 / 5: the same values under different fields)", depth);
+        r.bound = format!("all sequences of <= {} evaluate(node, facts) calls over 9 nodes (two with an operand that names another fact) x 27 fact sets (each of x, y, z absent / 1 / 5: the same values under different fields)", depth);
         out.push(r);
     }
     if crate::props::wants(opts, "conclusion_index") {
@@ -633,8 +649,9 @@ pub fn run(opts: &Opts) -> Vec<Report> {
 pub fn replay(case: &serde_json::Value) -> crate::props::ReplayResult {
     let ch = crate::props::choices_of(case);
     let r = match case["sub"].as_str().unwrap_or("") {
-        "alpha_index" => explore::replay(&|| AlphaSys::new(13), &ch),
+        "alpha_index" => explore::replay(&|| AlphaSys::new(16), &ch),
         "alpha_index_zero_nan" => explore::replay(&|| AlphaSys::new(6), &ch),
+        "alpha_index_nested_arrays" => explore::replay(&AlphaSys::nested, &ch),
         "alpha_index_several_fields" => explore::replay(&AlphaMultiSys::new, &ch),
         "memo_field_structure" => explore::replay(&MemoSys::new_structure, &ch),
         "beta_index" => explore::replay(&BetaSys::new, &ch),
